@@ -20,7 +20,7 @@ ANCHORS = ['Factor.active', 'FactoredInference.__init__', 'FactoredInference._se
            'GraphicalModel.project', 'GraphicalModel.datavector', 'GraphicalModel.synthetic_data',
            'FactoredInference.dual_averaging', 'FactoredInference.interior_gradient', 'FactoredInference.mirror_descent']
 DECIDING = ['zero_cells_empty', 'mass_conserved', 'synthetic_records_avoid_zeros']
-ASSUMPTIONS = ['mass is conserved to rtol min(1e-6, max(1e-9, 256*eps*max|parameter|))', '"zero" for floating-point answers means <= 1e-80*total (RDA / IG refit parameters through log(mu + 1e-100) by design); synthetic records are judged exactly',
+ASSUMPTIONS = ['mass is conserved to rtol min(1e-4, max(1e-9, 256*eps*max|parameter|))', '"zero" for floating-point answers means <= 1e-80*total (RDA / IG refit parameters through log(mu + 1e-100) by design); synthetic records are judged exactly',
                'zero sets leave at least half of every key\'s cells possible, so a feasible distribution exists',
                'RDA / IG measurements use projections of >= 2 cells']
 PLAN = {
@@ -90,7 +90,7 @@ def judge(ctx, model, attrs, shape, Z, rows, what, solver):
     # belief propagation / variable elimination normalise in log space: parameters of magnitude M cost ~ulp(M) of
     # relative accuracy in every answer (thorough tier: 4e-9 with MD parameters ~1e6 next to structural zeros)
     mx = estim.max_abs_potential(model)
-    sum_rtol = min(1e-6, max(1e-9, 256 * np.finfo(float).eps * (mx if np.isfinite(mx) else 1e308)))
+    sum_rtol = min(1e-4, max(1e-9, 256 * np.finfo(float).eps * (mx if np.isfinite(mx) else 1e308)))
 
     def check_answer(name, at, v):
         v = np.asarray(v, dtype=float)
